@@ -261,6 +261,9 @@ def run_unit(name, tier='quick', variant=None, keep=True):
                 break
         spans = d.get('spans', [])
         prim = next((s for s in spans if s.get('is_primary')), spans[0] if spans else None)
+        if prim is not None and os.path.basename(prim.get('file_name', '')) != genbase:
+            # failing clause lives in vstd (e.g. a trait-level postcondition): locate by the in-file span
+            prim = next((s for s in spans if os.path.basename(s.get('file_name', '')) == genbase), prim)
         if kind is None:
             if RLIMIT.search(msg):
                 tool_errors.append(('rlimit', msg, d.get('rendered', '')))
@@ -286,21 +289,21 @@ def run_unit(name, tier='quick', variant=None, keep=True):
         k2 = kind
         if kind == 'post':
             # primary = failed clause; item from the clause tag
-            t = ptag if ptag and ':ensures:' in ptag else next((t for t, _ in otags if t and ':ensures:' in t), ptag)
-            if t and t.startswith('item:') and ':ensures:' in t:
-                item = t.split(':')[1]
-                label = f'{item}.post.{t.split(":ensures:")[1]}'
-            elif t and t.startswith('item:'):
-                item = t.split(':')[1]
-                label = f'{item}.hints' if ':proof:' in t else f'{item}.safety'   # closure postcondition inside body
+            t = ptag if ptag and '|ensures|' in ptag else next((t for t, _ in otags if t and '|ensures|' in t), ptag)
+            if t and t.startswith('item|') and '|ensures|' in t:
+                item = t.split('|')[1]
+                label = item + '.post.' + t.split('|ensures|')[1]
+            elif t and t.startswith('item|'):
+                item = t.split('|')[1]
+                label = f'{item}.hints' if '|proof|' in t else f'{item}.safety'   # closure postcondition inside body
             else:
                 fn = _enclosing_fn(lines, pln or 1)
                 label, item = f'lemma.{fn}', None
         elif kind == 'inv':
-            t = ptag if ptag and ':invariant:' in ptag else next((t for t, _ in otags if t and ':invariant:' in t), ptag)
-            if t and ':invariant:' in t:
-                item = t.split(':')[1]
-                lp = re.search(r':(loop\d+):invariant:(.*)$', t)
+            t = ptag if ptag and '|invariant|' in ptag else next((t for t, _ in otags if t and '|invariant|' in t), ptag)
+            if t and '|invariant|' in t:
+                item = t.split('|')[1]
+                lp = re.search(r'\|(loop\d+)\|invariant\|(.*)$', t)
                 label = f'{item}.{lp.group(1)}.inv.{lp.group(2)}'
             else:
                 fn = _enclosing_fn(lines, pln or 1)
@@ -308,14 +311,14 @@ def run_unit(name, tier='quick', variant=None, keep=True):
         else:
             # pre / assert / overflow / divzero / decreases: attributed to the enclosing item of the primary span
             t = ptag
-            if t and t.startswith('item:'):
-                item = t.split(':')[1]
+            if t and t.startswith('item|'):
+                item = t.split('|')[1]
                 if kind == 'decreases':
-                    lp = re.search(r':(loop\d+):', t)
+                    lp = re.search(r'\|(loop\d+)\|', t)
                     label = f'{item}.{lp.group(1)}.decreases' if lp else f'{item}.decreases'
-                elif ':proof:' in t:
+                elif '|proof|' in t:
                     label = f'{item}.hints'
-                elif ':invariant:' in t or ':ensures:' in t or ':requires:' in t:
+                elif '|invariant|' in t or '|ensures|' in t or '|requires|' in t:
                     # a precondition/recommendation failing inside a contract clause
                     label = f'{item}.hints'
                 else:
@@ -363,9 +366,9 @@ def run_unit(name, tier='quick', variant=None, keep=True):
 def _spec_rank(tag):
     if tag is None:
         return 0
-    if ':ensures:' in tag or ':invariant:' in tag or ':requires:' in tag or ':decreases' in tag:
+    if '|ensures|' in tag or '|invariant|' in tag or '|requires|' in tag or '|decreases' in tag:
         return 3
-    if ':proof:' in tag:
+    if '|proof|' in tag:
         return 2
     return 1
 
